@@ -217,6 +217,14 @@ class RealSteps:
 
             unlink = remove
 
+            def getpid(self):
+                return os.getpid() + getattr(rs, "pid_offset", 0)
+
+            def makedirs(self, p, exist_ok=False):
+                if not os.path.isdir(p):
+                    rs._step(p)            # StepFS counts a creating makedirs as one step
+                os.makedirs(p, exist_ok=exist_ok)
+
             def listdir(self, d):
                 # a directory listing observes every file of every writer in that directory
                 if rs.deltas is not None and threading.get_ident() == rs.reader:
